@@ -528,10 +528,17 @@ void NifFile::SortGraph(NiNode* root, SortState& sortState) {
 			// 2. Shapes
 			// 3. other
 
-			// Add nodes with children
+			// Add nodes with children (empty child entries do not count, they are dropped when saving)
+			auto hasChildren = [](NiNode* n) {
+				for (auto& ref : n->childRefs)
+					if (!ref.IsEmpty())
+						return true;
+				return false;
+			};
+
 			for (auto& index : childIndices) {
 				auto node = hdr.GetBlock<NiNode>(index);
-				if (node && node->childRefs.GetSize() > 0) {
+				if (node && hasChildren(node)) {
 					newChildIndices.push_back(index);
 					newChildRefs.AddBlockRef(index);
 				}
